@@ -168,6 +168,12 @@ read_locked(kdump_ctx_t *ctx, kdump_addrspace_t as, kdump_addr_t addr,
 	size_t remain;
 	kdump_status ret;
 
+	if (*plength && !get_page_size(ctx)) {
+		*plength = 0;
+		return set_error(ctx, KDUMP_ERR_INVALID,
+				 "Page size is not known");
+	}
+
 	ret = KDUMP_OK;
 	remain = *plength;
 	while (remain) {
@@ -228,6 +234,10 @@ read_string_locked(kdump_ctx_t *ctx, kdump_addrspace_t as, kdump_addr_t addr,
 	char *str = NULL, *newstr, *endp;
 	size_t length = 0, newlength;
 	kdump_status ret;
+
+	if (!get_page_size(ctx))
+		return set_error(ctx, KDUMP_ERR_INVALID,
+				 "Page size is not known");
 
 	do {
 		size_t off, partlen;
